@@ -105,7 +105,7 @@ func (s dspec) label() string {
 	case "aesgcm":
 		l := fmt.Sprintf("aesgcm%d", s.ksz*8)
 		if s.iv != 12 || s.tag != 16 {
-			l += fmt.Sprintf("-iv%d-tag%d", s.iv, s.tag)
+			l += "-other-iv-or-tag-size"
 		}
 		return l
 	case "aessiv":
